@@ -192,6 +192,44 @@ def _evaluate(case, X, flat=False):
     return Y
 
 
+_FRESH = {'extract_hessian', 'extract_hess_vec', 'extract_tensor'}      # return newly allocated arrays on the unchanged tree;
+# extract_jacobian / extract_jac_vec return (transposed) views of y.data[1] - legitimate, so no aliasing assertion there
+
+
+def _extract(name, Y, *args, **kw):
+    """y -> derivative array through UTPM.<name>; the extraction must be a pure function of y:
+    y.data byte-identical before/after, a second extraction from the same y gives the identical result, and (for the
+    drivers that build a new array) the result does not share memory with y.data"""
+    fn = getattr(UTPM, name)
+    pos = [Y if a is _Y else a for a in args]
+    before = Y.data.tobytes()
+    r1 = guard(fn, *pos, **kw)
+    if Y.data.tobytes() != before:
+        raise Violation('UTPM.%s modified the coefficients of its argument y' % name)
+    keep = np.array(r1, copy=True)
+    if name in _FRESH and isinstance(r1, np.ndarray) and np.shares_memory(r1, Y.data):
+        raise Violation('UTPM.%s returns an array that shares memory with y.data' % name)
+    r2 = guard(fn, *pos, **kw)
+    if Y.data.tobytes() != before:
+        raise Violation('the second UTPM.%s(y) modified the coefficients of its argument y' % name)
+    r2 = np.asarray(r2)
+    if r2.shape != keep.shape or r2.tobytes() != np.ascontiguousarray(keep).astype(r2.dtype).tobytes():
+        raise Violation('a second UTPM.%s from the same y differs from the first: %r vs %r' % (name, r2.tolist(), keep.tolist()))
+    # in-place change of a freshly built result must not reach y (belt and braces for the aliasing assertion)
+    if name in _FRESH and isinstance(r1, np.ndarray) and r1.size and r1.flags.writeable:
+        r1[...] = 0
+        if Y.data.tobytes() != before:
+            raise Violation('overwriting the array returned by UTPM.%s changed y.data' % name)
+    return keep
+
+
+class _YMarker:
+    pass
+
+
+_Y = _YMarker()
+
+
 def _poly_info(case, polys, **extra):
     _INFO.clear()
     info = {'mixed': P.has_mixed_monomial(polys), 'deg': P.max_degree(polys), 'out': case['out']}
@@ -211,7 +249,7 @@ def prop_poly_jacobian(case, stats):
     xf = P.frac_point(case['x'])
     X = guard(lambda s: UTPM.init_jacobian(s, **_kw(case)), _seed(case))
     Y = _evaluate(case, X)
-    J = guard(UTPM.extract_jacobian, Y)
+    J = _extract('extract_jacobian', Y, _Y)
     _compare(J, _ref_jacobian(polys, xf, N), _majorant(case, 1.0), _tol(case, 'jacobian', 1e-10), stats,
              'extract_jacobian(f(init_jacobian(x)))')
 
@@ -225,7 +263,7 @@ def prop_poly_jac_vec(case, stats):
     v = _veff(case)
     X = guard(lambda s, w: UTPM.init_jac_vec(s, w, **_kw(case)), _seed(case), _vpass(case))
     Y = _evaluate(case, X)
-    r = guard(UTPM.extract_jac_vec, Y)
+    r = _extract('extract_jac_vec', Y, _Y)
     J = _ref_jacobian(polys, xf, N)
     vf = P.frac_point(v)
     ref = np.zeros(polys.shape)
@@ -246,7 +284,7 @@ def prop_poly_hessian(case, stats):
     xf = P.frac_point(case['x'])
     X = guard(UTPM.init_hessian, _seed(case))
     Y = _evaluate(case, X, flat=True)           # init_hessian ravels the seed itself
-    H = guard(UTPM.extract_hessian, N, Y)
+    H = _extract('extract_hessian', Y, N, _Y)
     _compare(H, _ref_hessian(polys[()], xf, N), _majorant(case, 2.0), _tol(case, 'hessian', 1e-10), stats,
              'extract_hessian(N, f(init_hessian(x)))')
 
@@ -260,7 +298,7 @@ def prop_poly_hess_vec(case, stats):
     v = _veff(case)
     X = guard(lambda s, w: UTPM.init_hess_vec(s, w, **_kw(case)), _seed(case), _vpass(case))
     Y = _evaluate(case, X)
-    r = guard(UTPM.extract_hess_vec, N, Y)
+    r = _extract('extract_hess_vec', Y, N, _Y)
     poly = polys[()]
     vf = P.frac_point(v)
     g = [poly.diff(i) for i in range(N)]
@@ -277,7 +315,7 @@ def prop_poly_tensor(case, stats):
     xf = P.frac_point(case['x'])
     X = guard(UTPM.init_tensor, d, _seed(case))
     Y = _evaluate(case, X)
-    T = guard(lambda n, y: UTPM.extract_tensor(n, y, as_full_matrix=False), N, Y)
+    T = _extract('extract_tensor', Y, N, _Y, as_full_matrix=False)
     mi = np.asarray(guard(exint.generate_multi_indices, N, d))
     rows = [tuple(int(a) for a in r) for r in mi]
     if sorted(rows) != sorted(compositions(d, N)):
@@ -286,10 +324,10 @@ def prop_poly_tensor(case, stats):
     scale = _majorant(case, float(d))
     _compare(T, ref, scale, 1e-10, stats, 'extract_tensor(N, f(init_tensor(%d,x)), as_full_matrix=False)' % d)
     if d == 2 and polys.shape == ():
-        H = guard(UTPM.extract_tensor, N, Y)
+        H = _extract('extract_tensor', Y, N, _Y)
         _compare(H, _ref_hessian(polys[()], xf, N), scale, 1e-10, stats, 'extract_tensor(N, f(init_tensor(2,x)))')
         # a second extraction from the same y (and a second y) must give the same matrix (no state kept between calls)
-        H2 = guard(UTPM.extract_tensor, N, Y)
+        H2 = _extract('extract_tensor', Y, N, _Y)
         _compare(H2, _ref_hessian(polys[()], xf, N), scale, 1e-10, stats, 'second extract_tensor(N, y) from the same y')
 
 
@@ -543,7 +581,7 @@ def prop_smooth_jacobian(case, stats):
     y0 = _dry_run(case)
     xv = case['x'].astype(float)
     Y = _evaluate(case, guard(UTPM.init_jacobian, _seed(case)))
-    J = np.asarray(guard(UTPM.extract_jacobian, Y))
+    J = _extract('extract_jacobian', Y, _Y)
     ref = _mp_jacobian(prog, xv, y0.shape)
     scale = max(1.0, float(np.max(np.abs(ref))) if ref.size else 1.0)
     tol = _tol(case, 'jacobian', 1e-9)
@@ -553,12 +591,12 @@ def prop_smooth_jacobian(case, stats):
     # column j of the Jacobian == Jacobian-vector product with e_j
     for j in range(N):
         Yj = _evaluate(case, guard(UTPM.init_jac_vec, _seed(case), _unit(case, j)))
-        col = guard(UTPM.extract_jac_vec, Yj)
+        col = _extract('extract_jac_vec', Yj, _Y)
         _compare(col, ref[..., j], scale, tol, stats, 'extract_jac_vec with v = e_%d vs column %d of the Jacobian (mpmath)' % (j, j))
         _compare(col, J[..., j], scale, tol, stats, 'extract_jac_vec with v = e_%d vs column %d of extract_jacobian' % (j, j))
     v = _veff(case).astype(float)
     Yv = _evaluate(case, guard(UTPM.init_jac_vec, _seed(case), _vpass(case)))
-    jv = guard(UTPM.extract_jac_vec, Yv)
+    jv = _extract('extract_jac_vec', Yv, _Y)
     vs = max(1.0, float(np.max(np.abs(v))))
     _compare(jv, ref @ v, scale * vs, tol, stats, 'extract_jac_vec(f(init_jac_vec(x,v))) vs mpmath J v')
 
@@ -576,16 +614,16 @@ def prop_smooth_hessian(case, stats):
     _INFO.clear()
     _INFO[id(case)] = {'nt': bool(np.any(ref[~np.eye(N, dtype=bool)] != 0))}
     if not case.get('skip_init_hessian'):
-        H = np.asarray(guard(UTPM.extract_hessian, N, _evaluate(case, guard(UTPM.init_hessian, _seed(case)), flat=True)))
+        H = _extract('extract_hessian', _evaluate(case, guard(UTPM.init_hessian, _seed(case)), flat=True), N, _Y)
         _compare(H, ref, scale, _tol(case, 'hessian', 1e-9), stats, 'extract_hessian(N, f(init_hessian(x))) vs mpmath')
-    T = guard(UTPM.extract_tensor, N, _evaluate(case, guard(UTPM.init_tensor, 2, _seed(case, flat=True)), flat=True))
+    T = _extract('extract_tensor', _evaluate(case, guard(UTPM.init_tensor, 2, _seed(case, flat=True)), flat=True), N, _Y)
     _compare(T, ref, scale, 1e-9, stats, 'extract_tensor(N, f(init_tensor(2,x))) vs mpmath Hessian')
     tol = _tol(case, 'hess_vec', 1e-9)
     for j in range(N):
-        col = guard(UTPM.extract_hess_vec, N, _evaluate(case, guard(UTPM.init_hess_vec, _seed(case, flat=True), _unit(case, j).reshape(-1)), flat=True))
+        col = _extract('extract_hess_vec', _evaluate(case, guard(UTPM.init_hess_vec, _seed(case, flat=True), _unit(case, j).reshape(-1)), flat=True), N, _Y)
         _compare(col, ref[:, j], scale, tol, stats, 'extract_hess_vec with v = e_%d vs column %d of the Hessian (mpmath)' % (j, j))
     v = _veff(case).astype(float)
-    hv = guard(UTPM.extract_hess_vec, N, _evaluate(case, guard(UTPM.init_hess_vec, _seed(case, flat=True), _vpass(case)), flat=True))
+    hv = _extract('extract_hess_vec', _evaluate(case, guard(UTPM.init_hess_vec, _seed(case, flat=True), _vpass(case)), flat=True), N, _Y)
     vs = max(1.0, float(np.max(np.abs(v)))) ** 2
     _compare(hv, ref @ v, scale * vs, tol, stats, 'extract_hess_vec(N, f(init_hess_vec(x,v))) vs mpmath H v')
 
@@ -598,7 +636,7 @@ def prop_smooth_tensor(case, stats):
     y0 = _dry_run(case)
     xv = case['x'].astype(float)
     Y = _evaluate(case, guard(UTPM.init_tensor, d, _seed(case)))
-    T = guard(lambda n, y: UTPM.extract_tensor(n, y, as_full_matrix=False), N, Y)
+    T = _extract('extract_tensor', Y, N, _Y, as_full_matrix=False)
     rows = [tuple(int(a) for a in r) for r in np.asarray(guard(exint.generate_multi_indices, N, d))]
     if sorted(rows) != sorted(compositions(d, N)):
         raise Violation('generate_multi_indices(%d,%d) is not the set of multi-indices of order %d: %s' % (N, d, d, rows))
